@@ -41,6 +41,8 @@ def norm(line):
         d = json.loads(line)
         d["logid"] = 0
         return json.dumps(d, sort_keys=True)
+    if line.startswith('{"e":"dupstakker"'):
+        return '{"e":"dupstakker"}'      # whether a second Stakker is refused is what multi-stakker changes
     if line.startswith('{"e":"panic"'):
         d = json.loads(line)
         return json.dumps({"e": "panic", "during": d.get("during")})
